@@ -410,19 +410,73 @@ def generator_spelling(db, S, prog, dialect, pname, t_limit, validate, exclude):
     return check_program(db, S, g, dialect, pname, t_limit, validate=validate, exclude=exclude)
 
 
+def _queue_worker(wid, task_q, res_q, cfg):
+    """worker process of sharded(): announces every program before it starts so that the parent can enforce a wall-clock limit"""
+    pname, dialect, R, t_limit, pid, validate, exclude = cfg
+    global PID
+    PID = pid
+    if pname != 'sqlite': E0.install_driver_stubs()
+    db = get_db(pname)
+    S = symdb.build(db, R=R, strlen=3)
+    while True:
+        item = task_q.get()
+        if item is None: return
+        i, prog = item
+        res_q.put(('start', wid, i, None))
+        try:
+            obs = check_program(db, S, prog, dialect, pname, t_limit, validate=validate, exclude=exclude)
+            obs += generator_spelling(db, S, prog, dialect, pname, t_limit, validate, exclude)
+        except Exception:
+            import traceback
+            obs = [Ob('%s: %s' % (dialect, prog.src), 'z3', INCONCLUSIVE, detail='harness exception: %s' % traceback.format_exc()[-400:])]
+        res_q.put(('done', wid, i, obs))
+
+
 def sharded(progs, cfg, procs=None):
-    """[(program, [Ob])] in program order; programs are dealt round-robin to worker processes (z3 is single-threaded)"""
-    import multiprocessing as mp, os
+    """[(program, [Ob])] in program order.  Worker processes pull programs from a queue (z3 is single-threaded); a program that
+    keeps a worker busy for longer than a hard wall-clock limit (z3's own timeout is advisory: the sequence solver does not
+    always honour it) is abandoned as INCONCLUSIVE, its worker is killed and replaced."""
+    import multiprocessing as mp, os, time, queue
     procs = procs or int(os.environ.get('VERIF_PROCS') or min(12, os.cpu_count() or 4))
     if len(progs) < 24 or procs <= 1:
         res = _shard_worker((list(range(len(progs))), progs, cfg))
-    else:
-        shards = [(list(range(k, len(progs), procs)), progs[k::procs], cfg) for k in range(procs)]
-        ctx = mp.get_context('spawn')
-        with ctx.Pool(procs) as pool:
-            res = [x for part in pool.map(_shard_worker, shards) for x in part]
-    res.sort(key=lambda t: t[0])
-    return [(progs[i], obs) for i, obs in res]
+        res.sort(key=lambda t: t[0])
+        return [(progs[i], obs) for i, obs in res]
+    t_limit = cfg[3]
+    hard = 6 * t_limit / 1000.0 + 30
+    ctx = mp.get_context('spawn')
+    task_q, res_q = ctx.Queue(), ctx.Queue()
+    for i, p_ in enumerate(progs): task_q.put((i, p_))
+    workers, busy, results = {}, {}, {}
+    def spawn(wid):
+        w = ctx.Process(target=_queue_worker, args=(wid, task_q, res_q, cfg)); w.daemon = True; w.start(); workers[wid] = w
+    for wid in range(procs): spawn(wid)
+    next_wid = procs
+    dialect = cfg[1]
+    while len(results) < len(progs):
+        try:
+            kind, wid, i, obs = res_q.get(timeout=2)
+            if kind == 'start': busy[wid] = (i, time.time())
+            else:
+                results[i] = obs; busy.pop(wid, None)
+        except queue.Empty:
+            pass
+        now = time.time()
+        for wid, (i, t0) in list(busy.items()):
+            if now - t0 > hard and i not in results:
+                workers[wid].terminate(); workers[wid].join(5)
+                del workers[wid]; del busy[wid]
+                results[i] = [Ob('%s: %s' % (dialect, progs[i].src), 'z3', INCONCLUSIVE, detail='abandoned after %.0f s of wall-clock time (hard limit; the solver ignored its timeout)' % (now - t0))]
+                spawn(next_wid); next_wid += 1
+        if not any(w.is_alive() for w in workers.values()) and len(results) < len(progs):
+            # every worker died (should not happen): account for what is missing instead of waiting for ever
+            for i in range(len(progs)):
+                results.setdefault(i, [Ob('%s: %s' % (dialect, progs[i].src), 'z3', INCONCLUSIVE, detail='worker process died')])
+    for _ in workers: task_q.put(None)
+    for w in workers.values():
+        w.join(5)
+        if w.is_alive(): w.terminate()
+    return [(progs[i], results[i]) for i in range(len(progs))]
 
 
 def run(tier, seed, only=None):
